@@ -1,4 +1,5 @@
 import Hub.Lemmas.Mint
+import Hub.Lemmas.Swap
 import Hub.Model.Run
 import Hub.Props.C17
 /-
@@ -22,6 +23,16 @@ entry's minimum and deletes the entry.
   removed, every later entry untouched.
 * `sorted_of_inRange`: `hsorted` holds when all timestamps are instants of years 1..9999 (C17).
 * `applied_at_most_once`(+`_chronological`): over any sequence of block times.
+* `step_begin_mint`, `step_other_mint`, `begin_step_chronological`, `history_applied_then_remaining`,
+  `applied_at_most_once_history`: the same over whole histories (`step`/`run` of `Hub/Model/Run.lean`):
+  only a begin-of-block operation touches the schedule, the mint parameters or the minter's rate.
+* `genesis_schedWF`, `genesis_schedule`, `genesis_sorted`: the hypotheses hold for genesis states.
+
+Scope note: "the current inflation rate has been reset to the entry's minimum" is a statement about the
+state right after the custommint hook.  In the real application the SDK mint module's own BeginBlocker
+runs next in the same block (app/module.go: custommint, then mint) and moves `Minter.Inflation` by one
+per-block step inside `[min, max]`; the model (and the lock-step comparison) observe the rate right
+after the hook.
 -/
 namespace Hub.Props.C15
 open Hub.SDK Hub.Model
@@ -321,6 +332,39 @@ theorem inflationOrder_length {s : State} (hwf : SchedWF s) : (inflationOrder s)
   rw [this, (inflationKeys_perm s).length_eq]
   simp [Tbl.keys]
 
+/-- If a list of applications followed by the final schedule is the initial schedule, then: no entry
+is applied twice; an applied entry is not in the final table; the final table is a sub-table of the
+initial one; the number of applications is the number of removed entries. -/
+theorem once_of_split {s fin : State} {app : List Inflation} (happ : app ++ inflationOrder fin = inflationOrder s)
+    (hwf : SchedWF s) (hwf' : SchedWF fin) :
+    app.Nodup ∧
+    (∀ e ∈ app, fin.inflations.get e.ts = none) ∧
+    (∀ k i, fin.inflations.get k = some i → s.inflations.get k = some i) ∧
+    app.length + fin.inflations.length = s.inflations.length := by
+  have hnd := inflationOrder_nodup hwf
+  rw [← happ] at hnd
+  have hsub : ∀ i, i ∈ inflationOrder fin → i ∈ inflationOrder s := by
+    intro i hi; rw [← happ]; exact List.mem_append_right _ hi
+  refine ⟨(List.nodup_append.mp hnd).1, ?_, ?_, ?_⟩
+  · intro e he
+    cases hg : fin.inflations.get e.ts with
+    | none => rfl
+    | some i =>
+      exfalso
+      have hts := hwf'.keyed _ _ hg
+      have hi : i ∈ inflationOrder fin := (mem_inflationOrder hwf' i).mpr (by rw [hts]; exact hg)
+      have hi0 := (mem_inflationOrder hwf i).mp (hsub i hi)
+      have he0 := (mem_inflationOrder hwf e).mp (by rw [← happ]; exact List.mem_append_left _ he)
+      rw [hts, he0] at hi0
+      have : e = i := Option.some.inj hi0
+      exact (List.nodup_append.mp hnd).2.2 e he i hi this
+  · intro k i hg
+    have hts := hwf'.keyed _ _ hg
+    have hi : i ∈ inflationOrder fin := (mem_inflationOrder hwf' i).mpr (by rw [hts]; exact hg)
+    have := (mem_inflationOrder hwf i).mp (hsub i hi)
+    rw [hts] at this; exact this
+  · rw [← inflationOrder_length hwf', ← inflationOrder_length hwf, ← happ, List.length_append]
+
 /-- **Every entry is applied at most once**, over any sequence of block times: no entry occurs
 twice among the applications; an applied entry is no longer in the table at the end (it never
 reappears); the final table is a sub-table of the initial one; the number of applications equals
@@ -331,29 +375,7 @@ theorem applied_at_most_once (ts : List Time) (s : State) (hwf : SchedWF s) :
     (∀ k i, (runBlocks s ts).inflations.get k = some i → s.inflations.get k = some i) ∧
     (appliedSeq s ts).length + (runBlocks s ts).inflations.length = s.inflations.length := by
   obtain ⟨happ, hwf'⟩ := applied_then_remaining ts s hwf
-  have hnd := inflationOrder_nodup hwf
-  rw [← happ] at hnd
-  have hsub : ∀ i, i ∈ inflationOrder (runBlocks s ts) → i ∈ inflationOrder s := by
-    intro i hi; rw [← happ]; exact List.mem_append_right _ hi
-  refine ⟨(List.nodup_append.mp hnd).1, ?_, ?_, ?_⟩
-  · intro e he
-    cases hg : (runBlocks s ts).inflations.get e.ts with
-    | none => rfl
-    | some i =>
-      exfalso
-      have hts := hwf'.keyed _ _ hg
-      have hi : i ∈ inflationOrder (runBlocks s ts) := (mem_inflationOrder hwf' i).mpr (by rw [hts]; exact hg)
-      have hi0 := (mem_inflationOrder hwf i).mp (hsub i hi)
-      have he0 := (mem_inflationOrder hwf e).mp (by rw [← happ]; exact List.mem_append_left _ he)
-      rw [hts, he0] at hi0
-      have : e = i := Option.some.inj hi0
-      exact (List.nodup_append.mp hnd).2.2 e he i hi this
-  · intro k i hg
-    have hts := hwf'.keyed _ _ hg
-    have hi : i ∈ inflationOrder (runBlocks s ts) := (mem_inflationOrder hwf' i).mpr (by rw [hts]; exact hg)
-    have := (mem_inflationOrder hwf i).mp (hsub i hi)
-    rw [hts] at this; exact this
-  · rw [← inflationOrder_length hwf', ← inflationOrder_length hwf, ← happ, List.length_append]
+  exact once_of_split happ hwf hwf'
 
 /-- With a chronological iteration order: after any sequence of block times exactly the entries
 with a timestamp at or before one of the block times are gone — so the table holds no entry with a
@@ -395,6 +417,130 @@ theorem applied_at_most_once_chronological (ts : List Time) (s : State) (hwf : S
   · rename_i hn
     by_contra hc
     exact hn ⟨t, ht, Int.not_lt.mp hc⟩
+
+/-! ### whole histories: messages, block hooks and governance in between -/
+
+theorem SchedWF.of_inflations {s s' : State} (h : s'.inflations = s.inflations) (hwf : SchedWF s) : SchedWF s' :=
+  ⟨by rw [h]; exact hwf.nodup, by rw [h]; exact hwf.keyed⟩
+
+theorem inflationOrder_congr {s s' : State} (h : s'.inflations = s.inflations) : inflationOrder s' = inflationOrder s := by
+  unfold inflationOrder; rw [h]
+
+/-- A begin-of-block operation changes the custommint state exactly as the hook does (the other
+begin-of-block work — fee sweep, hourly payouts — does not touch it). -/
+theorem step_begin_mint {s s' : State} {t : Time} (h : step s (.begin t) = some s') :
+    mv s' = mv (hook { s with height := s.height + 1, events := [] } t) := by
+  simp only [step] at h
+  split at h
+  · rename_i s1 hb
+    simp only [Option.some.injEq] at h; rw [← h]
+    exact hv_mint (beginBlock_hv hb)
+  · contradiction
+
+def isBegin : Op → Bool
+  | .begin _ => true
+  | _ => false
+
+/-- No other operation — no message (accepted or rejected, from anybody), no end-of-block, no
+governance change — touches the schedule, the mint parameters or the minter's rate. -/
+theorem step_other_mint {s s' : State} {op : Op} (h : step s op = some s') (hop : isBegin op = false) : mv s' = mv s := by
+  cases op with
+  | tx m =>
+    simp only [step, Option.some.injEq] at h
+    rw [← h]
+    rcases deliver_cases s m with ⟨_, _, hh⟩ | ⟨_, he, _⟩
+    · by_cases hsw : (Op.tx m).isSwap = false
+      · exact (cv_mint (handle_cv hh hsw)).trans rfl
+      · cases m <;> simp [Op.isSwap] at hsw
+        exact ((swap_nodes hh).2.2.2.2).trans rfl
+    · rw [he]; rfl
+  | begin t => simp [isBegin] at hop
+  | endB =>
+    simp only [step] at h
+    split at h
+    · rename_i s1 hb
+      simp only [Option.some.injEq] at h; rw [← h]; exact (endBlock_ledger hb).2.2.2
+    · contradiction
+  | gov c =>
+    simp only [step, Option.some.injEq] at h
+    rw [← h]
+    cases hg : gov s c with
+    | none => rfl
+    | some s1 => exact (gov_ledger hg).2.2.2.2
+
+/-- **The property text for one begin-of-block operation of a history** (chronological order). -/
+theorem begin_step_chronological {s s' : State} {t : Time} (h : step s (.begin t) = some s') (hwf : SchedWF s)
+    (hsorted : (inflationOrder s).Pairwise (fun a b => a.ts < b.ts)) :
+    (∀ k, s'.inflations.get k = if k ≤ t then none else s.inflations.get k) ∧
+    ((∀ k i, s.inflations.get k = some i → t < k) → mv s' = mv s) ∧
+    (∀ e, s.inflations.get e.ts = some e → e.ts ≤ t →
+      (∀ k i, s.inflations.get k = some i → k ≤ t → k ≤ e.ts) →
+        s'.mintMax = e.max ∧ s'.mintMin = e.min ∧ s'.mintRate = e.rate ∧ s'.minterInfl = e.min) := by
+  have hm := step_begin_mint h
+  have hwf1 : SchedWF { s with height := s.height + 1, events := [] } := SchedWF.of_inflations (s := s) rfl hwf
+  obtain ⟨c1, c2, c3⟩ := mint_hook_chronological { s with height := s.height + 1, events := [] } t hwf1 hsorted
+  refine ⟨?_, ?_, ?_⟩
+  · intro k; rw [mv_inflations hm]; exact c1 k
+  · intro hn; rw [hm, c2 hn]; rfl
+  · intro e he het hmax
+    obtain ⟨p1, p2, p3, p4, _⟩ := c3 e he het hmax
+    exact ⟨(congrArg MintView.mintMax hm).trans p1, (congrArg MintView.mintMin hm).trans p2,
+      (congrArg MintView.mintRate hm).trans p3, (congrArg MintView.minterInfl hm).trans p4⟩
+
+/-- All applications along a history, in the order they happen. -/
+def appliedHist : State → List Op → List Inflation
+  | _, [] => []
+  | s, op :: rest =>
+    match step s op with
+    | none => []
+    | some s' => (match op with | .begin t => applied s t | _ => []) ++ appliedHist s' rest
+
+/-- **Once, in order — over every history**: whatever messages, end-of-block steps and governance
+changes happen between the block starts, the applications (in the order they happen) followed by
+the final schedule are exactly the initial schedule. -/
+theorem history_applied_then_remaining (ops : List Op) (s s' : State) (hrun : run s ops = some s') (hwf : SchedWF s) :
+    appliedHist s ops ++ inflationOrder s' = inflationOrder s ∧ SchedWF s' := by
+  induction ops generalizing s with
+  | nil =>
+    simp only [run, Option.some.injEq] at hrun
+    rw [← hrun]; exact ⟨rfl, hwf⟩
+  | cons op rest ih =>
+    simp only [run] at hrun
+    unfold appliedHist
+    cases hst : step s op with
+    | none => rw [hst] at hrun; cases hrun
+    | some s1 =>
+      rw [hst] at hrun
+      simp only []
+      by_cases hb : isBegin op = true
+      · cases op <;> simp [isBegin] at hb
+        rename_i t
+        have hm := step_begin_mint hst
+        have hwf0 : SchedWF { s with height := s.height + 1, events := [] } := SchedWF.of_inflations (s := s) rfl hwf
+        obtain ⟨h1, h2, _, _⟩ := mint_hook_spec { s with height := s.height + 1, events := [] } t hwf0
+        have hwf1 : SchedWF s1 := SchedWF.of_inflations (mv_inflations hm) h2
+        obtain ⟨i1, i2⟩ := ih s1 hrun hwf1
+        refine ⟨?_, i2⟩
+        simp only []
+        rw [List.append_assoc, i1, inflationOrder_congr (mv_inflations hm), h1]
+        exact List.takeWhile_append_dropWhile
+      · have hb' : isBegin op = false := by simpa using hb
+        have hm := step_other_mint hst hb'
+        have hwf1 : SchedWF s1 := SchedWF.of_inflations (mv_inflations hm) hwf
+        obtain ⟨i1, i2⟩ := ih s1 hrun hwf1
+        refine ⟨?_, i2⟩
+        have : (match op with | .begin t => applied s t | _ => []) = [] := by
+          cases op <;> first | rfl | simp [isBegin] at hb'
+        rw [this, List.nil_append, i1, inflationOrder_congr (mv_inflations hm)]
+
+/-- **Every entry is applied at most once, over every history.** -/
+theorem applied_at_most_once_history (ops : List Op) (s s' : State) (hrun : run s ops = some s') (hwf : SchedWF s) :
+    (appliedHist s ops).Nodup ∧
+    (∀ e ∈ appliedHist s ops, s'.inflations.get e.ts = none) ∧
+    (∀ k i, s'.inflations.get k = some i → s.inflations.get k = some i) ∧
+    (appliedHist s ops).length + s'.inflations.length = s.inflations.length := by
+  obtain ⟨happ, hwf'⟩ := history_applied_then_remaining ops s s' hrun hwf
+  exact once_of_split happ hwf hwf'
 
 /-! ### genesis -/
 
